@@ -35,6 +35,8 @@ DEFAULT_PROFILE = {
     'watchers': 0,
     'late': 0,
     'p_profile': 0,
+    'p_monitor': 0,
+    'p_monitor_hang': 0,
 }
 
 
@@ -195,6 +197,20 @@ class Gen(object):
       beh.append(b)
     spec = {'t': 'phase', 'name': name, 'opts': opts, 'meas': meas, 'diags': diags,
             'plugs': plugs, 'beh': beh}
+    # openhtf.core.monitors: a background thread samples a value into a dimensioned measurement
+    # while the body runs (phases without plugs and without a timeout only: the wrapper calls the
+    # inner phase without its plugs, and joining the monitor thread may take one poll interval)
+    if not plugs and timeout is None and role == 'main' and self.chance('p_monitor'):
+      spec['monitor'] = {'interval_ms': t.pick([500, 200, 1000], 'mon_interval')}
+    elif not plugs and timeout is not None and role == 'main' and self.chance('p_monitor_hang'):
+      # a monitored phase whose body never returns in time and ignores the kill: its monitor
+      # thread is abandoned with it and goes on sampling while later phases / retries run
+      spec['monitor'] = {'interval_ms': t.pick([500, 200, 1000], 'mon_interval')}
+      for b in beh:
+        b.clear()
+        b.update({'kind': 'ret', 'val': 'CONTINUE', 'hang': 'u', 'dur': timeout + t.pick([4.0, 8.0], 'udur')})
+      if allow_repeat and t.chance(600, 'mon_rot'):
+        opts['repeat_on_timeout'] = True
     self.phases.append(spec)
     return spec
 
